@@ -276,3 +276,21 @@ def guarded(f):
         return f()
     except Exception:
         return "ERR"
+
+
+# ---- source tie (DESIGN 13.8): texts for MANIFEST
+TIE_NAMES = {'encode_varint': 'utils.encode_varint', 'prepend_compact_size': 'utils.prepend_compact_size', 'parse_compact_size': 'utils.parse_compact_size',
+             'vi_to_int': 'utils.vi_to_int', 'op_push_data': 'Script._op_push_data', 'push_integer': 'Script._push_integer',
+             'sequence_init': 'Sequence.__init__', 'for_input_sequence': 'Sequence.for_input_sequence', 'for_script': 'Sequence.for_script',
+             'locktime_for_transaction': 'Locktime.for_transaction', 'add_magic_prefix': 'utils.add_magic_prefix',
+             'tagged_hash': 'utils.tagged_hash and schnorr.tagged_hash', 'tapbranch_tagged_hash': 'utils.tapbranch_tagged_hash',
+             'tapleaf_tagged_hash': 'utils.tapleaf_tagged_hash (modulo Script.to_bytes)'}
+
+
+def with_ties(ties, level_text, level_note, technique):
+    names = ", ".join(TIE_NAMES[t] for t in ties)
+    return (level_text + (" In addition %s %s translated from the tree under test on every run (harness/gen_src.py -> coq/Gen/Src.v) and "
+                          "proved equal to the model on every input (coq/Properties/Tie_*.v); where the translator cannot read a function it says so "
+                          "and the check widens its correspondence run instead." % (names, "is" if len(ties) == 1 else "are")),
+            level_note + " Source tie: trusted are the translator harness/gen_src.py and the Python semantics of coq/Lib/PySem.v.",
+            technique + " + source-to-Gallina translation of the small helpers proved equal to the model")
